@@ -266,6 +266,7 @@ func genC05(t *rapid.T) c05Case {
 	o := gen.DefaultGraphOpts()
 	o.QuoteNames = true
 	o.DagPct = 60
+	o.EmptyPct = 5
 	g := gen.Graph(t, o)
 	var refused []string
 	broken := false
